@@ -339,6 +339,15 @@ def one_sided_filter_of_det(fn_node):
     if not masks:
         return []
     mask_names = {a.targets[0].id: a.value for a in assigns if id(a.value) in masks}
+    # a mask whose complement is used as well partitions the terms (both parts are kept): no verdict
+    for n in ast.walk(fn_node):
+        inner = None
+        if isinstance(n, ast.UnaryOp) and isinstance(n.op, (ast.Invert, ast.Not)):
+            inner = n.operand
+        elif isinstance(n, ast.Call) and ast.unparse(n.func) in ("np.logical_not", "np.invert") and n.args:
+            inner = n.args[0]
+        if inner is not None and (id(inner) in masks or (isinstance(inner, ast.Name) and inner.id in mask_names)):
+            return []
     out = []
 
     def is_mask(e):
